@@ -259,7 +259,7 @@ func (g *WireGen) genComb(c *Comb, malformed float64, nkeys *int) []string {
 			return []string{strconv.Itoa(n)}
 		}
 		if !bad && (d == "ttl" || d == "ttlsec" || d == "ttlms") {
-			return []string{[]string{"100", "3600", "0", "-5", "1"}[g.pick(5)]}
+			return []string{[]string{"100", "3600", "0", "-5", "7200"}[g.pick(5)]}
 		}
 		if !bad && (d == "at" || d == "atsec") {
 			return []string{strconv.FormatInt(g.NowSec+int64(3600*(1+g.pick(3))), 10)}
